@@ -170,6 +170,8 @@ func (c *Cmd) Start() error {
 	}
 	if fi, err := os.Stat(c.Path); err != nil || fi.IsDir() {
 		return &os.PathError{Op: "fork/exec", Path: c.Path, Err: syscall.ENOENT}
+	} else if fi.Mode()&0o111 == 0 {
+		return &os.PathError{Op: "fork/exec", Path: c.Path, Err: syscall.EACCES}
 	}
 	p := &Proc{Path: c.Path, Args: c.Args, Env: c.Env, Dir: c.Dir, Started: since(), Spec: map[string]string{}, stdout: c.Stdout, stderr: c.Stderr}
 	if _, t := simrt.Current(); t != nil {
